@@ -14,6 +14,7 @@ import (
 )
 
 type frameRec struct {
+	code    []byte // the code this frame runs, when the harness knows it (nil = unknown)
 	static  bool // entered through STATICCALL, or a descendant of such a frame (from the call structure)
 	lastGas uint64
 	lastMem int
@@ -27,6 +28,8 @@ type stepObs struct {
 	maxStack int
 	maxDepth int
 	viol     []string // "key|description"
+	topCode     []byte // code of the outermost frame
+	pendingCode []byte // last answer of StateDB.GetCode
 	staticWriteFaults int // write opcodes met at an iteration head inside a static frame
 	authcallFrames    int // frames started by AUTHCALL
 }
@@ -74,7 +77,17 @@ func (o *stepObs) step(depth int, pc uint64, op byte, gas uint64, stackLen int, 
 					o.authcallFrames++
 				}
 			}
-			o.frames = append(o.frames, frameRec{static: st, lastGas: gas, lastMem: memLen, lastOp: op, lastPc: pc})
+			var code []byte
+			if n := len(o.frames); n == 0 {
+				code = o.topCode
+			} else if lo := o.frames[n-1].lastOp; lo == 0xf1 || lo == 0xf2 || lo == 0xf4 || lo == 0xfa || lo == 0xf7 {
+				code = o.pendingCode // what StateDB.GetCode answered for the callee
+			}
+			// attribution check: the byte at pc must be the opcode being executed
+			if code != nil && !(int(pc) < len(code) && code[pc] == op || int(pc) >= len(code) && op == 0) {
+				code = nil
+			}
+			o.frames = append(o.frames, frameRec{code: code, static: st, lastGas: gas, lastMem: memLen, lastOp: op, lastPc: pc})
 		}
 		return
 	}
@@ -82,6 +95,16 @@ func (o *stepObs) step(depth int, pc uint64, op byte, gas uint64, stackLen int, 
 		o.frames = o.frames[:depth]
 	}
 	f := &o.frames[depth-1]
+	if f.code != nil {
+		if !(int(pc) < len(f.code) && f.code[pc] == op || int(pc) >= len(f.code) && op == 0) {
+			f.code = nil // lost track of this frame's code: no jump oracle for it
+		} else if f.lastOp == 0x56 || (f.lastOp == 0x57 && pc != f.lastPc+1) {
+			// a taken JUMP / JUMPI: the landing pc must be a JUMPDEST outside PUSH data, by the harness's own scan
+			if !refValidJumpdest(f.code, pc) {
+				o.add("jump-lands-on-invalid-destination", fmt.Sprintf("depth %d: op 0x%02x at pc %d jumped to pc %d, which is not a JUMPDEST of this %d-byte code (own analysis)", depth, f.lastOp, f.lastPc, pc, len(f.code)))
+			}
+		}
+	}
 	if f.static && isWriteOp(f.lastOp) {
 		o.add("write-op-survives-static", fmt.Sprintf("depth %d: op 0x%02x at pc %d ran inside a STATICCALL context and the frame went on", depth, f.lastOp, f.lastPc))
 	}
@@ -123,4 +146,25 @@ func (o *stepObs) insideStatic() bool {
 		return false
 	}
 	return o.frames[n-1].static
+}
+
+// independent reference: is pos the position of a JUMPDEST opcode (not PUSH data) in code
+func refValidJumpdest(code []byte, pos uint64) bool {
+	if pos >= uint64(len(code)) || code[pos] != 0x5b {
+		return false
+	}
+	for i := uint64(0); i < uint64(len(code)); {
+		if i == pos {
+			return true
+		}
+		if b := code[i]; b >= 0x60 && b <= 0x7f {
+			i += uint64(b-0x5f) + 1
+		} else {
+			i++
+		}
+		if i > pos {
+			return false
+		}
+	}
+	return false
 }
